@@ -760,78 +760,71 @@ func runC12(r *Run, rng *Rng, tier string) error {
 		"compared with the Coq model. non-trivial = the unmutated tree built successfully and the mutant differs from it; distinct by hash of the case"
 	known := c12KnownClasses()
 
-	// 1. corpus witnesses of the known findings (and regression cases) first
+	// 1. corpus witnesses of the known findings (and regression cases), 2. a sample of unmutated
+	// trees (the generator must produce mostly valid input), 3. the mutants - one batch, corpus first
 	corpus := c12LoadCorpus()
-	var ccases []c12Case
-	for _, e := range corpus {
-		ccases = append(ccases, e.Case)
-	}
-	cres := c12RunAll(ccases, nWorkers)
-	for i, e := range corpus {
-		res := cres[i]
-		r.AddEval("corpus:"+e.Name, true)
-		r.Count("corpus", e.Name+" -> "+orStr(res.Class, res.Outcome))
-		if res.Class != "" {
-			r.Violation(OracleViolation{Law: "no_panic_exit_hang", Class: res.Class,
-				Detail: "corpus witness " + e.Name + ": " + c12Detail(e.Case, res), Replay: e.Case})
-		} else if e.Class != "" {
-			r.Meta.Notes = append(r.Meta.Notes, fmt.Sprintf("corpus witness %s no longer fails (expected class %s): repaired?", e.Name, e.Class))
-		}
-	}
-
-	// 2. generated mutants
 	gen := newC12Gen()
 	var cases []c12Case
-	var baseOK []bool
+	var nontriv []bool
+	for _, e := range corpus {
+		cases = append(cases, e.Case)
+		nontriv = append(nontriv, true)
+	}
+	nCorpus := len(cases)
+	nBase := nBuild / 10
+	if nBase > 400 {
+		nBase = 400
+	}
+	vrng := rng.Fork()
+	for i := 0; i < nBase; i++ {
+		cases = append(cases, gen.tree(vrng.Fork()).toCase())
+		nontriv = append(nontriv, false)
+	}
 	grng := rng.Fork()
 	for i := 0; i < nBuild; i++ {
 		g := grng.Fork()
 		t := gen.tree(g)
 		c, changed := gen.mutateTree(g, t)
 		cases = append(cases, c)
-		baseOK = append(baseOK, changed)
+		nontriv = append(nontriv, changed)
 	}
 	brng := rng.Fork()
 	for i := 0; i < nBytes; i++ {
-		g := brng.Fork()
-		c := gen.byteCase(g)
-		cases = append(cases, c)
-		baseOK = append(baseOK, true)
-	}
-	// a sample of unmutated trees: the generator must produce mostly valid input
-	nBase := nBuild / 10
-	if nBase > 400 {
-		nBase = 400
-	}
-	vrng := rng.Fork()
-	var bases []c12Case
-	for i := 0; i < nBase; i++ {
-		bases = append(bases, gen.tree(vrng.Fork()).toCase())
+		cases = append(cases, gen.byteCase(brng.Fork()))
+		nontriv = append(nontriv, true)
 	}
 	t0 := time.Now()
-	bres := c12RunAll(bases, nWorkers)
-	for i, res := range bres {
-		r.Count("unmutated_tree_outcome", res.Outcome)
-		if os.Getenv("VERIF_C12_DEBUG") != "" && res.Outcome != "ok" {
-			fmt.Fprintf(os.Stderr, "BASE %s: %s\n", res.Outcome, res.Msg)
-			if os.Getenv("VERIF_C12_DEBUG") == "2" {
-				b, _ := json.MarshalIndent(bases[i], "", " ")
-				fmt.Fprintf(os.Stderr, "%s\n", b)
-			}
-		}
-		if res.Outcome == "err" && len(r.Meta.Notes) < 6 {
-			r.Meta.Notes = append(r.Meta.Notes, "unmutated tree rejected: "+firstLine(res.Msg))
-		}
-		if res.Class != "" {
-			c12Report(r, known, bases[i], res, nWorkers, "unmutated")
-		}
-	}
 	results := c12RunAll(cases, nWorkers)
 	wall := time.Since(t0)
 	slow := int64(0)
 	for i, res := range results {
 		c := cases[i]
-		r.AddEval(c12Fingerprint(c), baseOK[i])
+		switch {
+		case i < nCorpus:
+			e := corpus[i]
+			r.AddEval("corpus:"+e.Name, true)
+			r.Count("corpus", e.Name+" -> "+orStr(res.Class, res.Outcome))
+			if res.Class != "" {
+				r.Violation(OracleViolation{Law: "no_panic_exit_hang", Class: res.Class,
+					Detail: "corpus witness " + e.Name + ": " + c12Detail(e.Case, res), Replay: e.Case})
+			} else if e.Class != "" {
+				r.Meta.Notes = append(r.Meta.Notes, fmt.Sprintf("corpus witness %s no longer fails (expected class %s): repaired?", e.Name, e.Class))
+			}
+			continue
+		case i < nCorpus+nBase:
+			r.Count("unmutated_tree_outcome", res.Outcome)
+			if os.Getenv("VERIF_C12_DEBUG") != "" && res.Outcome != "ok" {
+				fmt.Fprintf(os.Stderr, "BASE %s: %s\n", res.Outcome, res.Msg)
+			}
+			if res.Outcome == "err" && len(r.Meta.Notes) < 4 {
+				r.Meta.Notes = append(r.Meta.Notes, "unmutated tree rejected: "+firstLine(res.Msg))
+			}
+			if res.Class != "" {
+				c12Report(r, known, c, res, nWorkers, "unmutated")
+			}
+			continue
+		}
+		r.AddEval(c12Fingerprint(c), nontriv[i])
 		r.Count("case_kind", c.Kind)
 		r.Count("outcome", res.Outcome)
 		for _, m := range c.Muts {
@@ -856,8 +849,8 @@ func runC12(r *Run, rng *Rng, tier string) error {
 			c12Report(r, known, c, res, nWorkers, "mutant")
 		}
 	}
-	r.Meta.Notes = append(r.Meta.Notes, fmt.Sprintf("%d build/byte cases on %d worker processes in %.1fs; slowest finished case %d ms",
-		len(cases)+len(bases), nWorkers, wall.Seconds(), slow))
+	r.Meta.Notes = append(r.Meta.Notes, fmt.Sprintf("%d corpus + %d unmutated + %d mutant cases on %d worker processes in %.1fs; slowest finished case %d ms",
+		nCorpus, nBase, len(cases)-nCorpus-nBase, nWorkers, wall.Seconds(), slow))
 
 	// 3. kyaml core: outcome class of Lookup / LookupCreate / fieldspec.Filter vs the Coq model
 	c12CoreCases(r, rng.Fork(), gen, nCore)
